@@ -356,7 +356,7 @@ def rearm(ctx, P, iters):
                 if e.kind == "assign":
                     return e.d["target"] in (tok + ".reneging_date", tok + ".class_change_date")
                 return e.kind == "call" and e.d["meth"] in ("decide_class_change", "detatch_server", "reroute", "get_reneging_date")
-            w = Walker(P, view, keep=keep, track=lambda t, f: f.depth == 0 and any(k in unparse(t) for k in ("reneging", "dynamic_classes", "priority_preempt")), inline=lambda ev: False, loop_iters=iters)
+            w = Walker(P, view, keep=keep, track=lambda t, f: f.depth == 0 and any(k in unparse(t) for k in ("reneging", "dynamic_classes", "priority_preempt")), inline=rules.new_helper, loop_iters=iters)
             for st in w.paths_of(cls, fn):
                 if st.status == "raise":
                     continue
@@ -381,7 +381,7 @@ def rearm(ctx, P, iters):
         for handler, need in (("renege", "remove"), ("change_customer_class_while_waiting", "decide_class_change")):
             cls, fn = view.method(handler)
             w = Walker(P, view, keep=lambda e: e.kind == "call" and (e.d["meth"] in ("decide_class_change",) or (rules.listop(e) and rules.listop(e)[2] == "individuals" and rules.listop(e)[0] == "rem")),
-                       inline=lambda ev: False, loop_iters=iters)
+                       inline=rules.new_helper, loop_iters=iters)
             for st in w.paths_of(cls, fn):
                 if st.status == "raise":
                     continue
@@ -394,7 +394,7 @@ def rearm(ctx, P, iters):
     for c in P.subclasses("ArrivalNode"):
         v = P.view(c)
         cls, fn = v.method("have_event")
-        w = Walker(P, v, keep=lambda e: (e.kind == "assign" and e.d["target"].startswith("self.event_dates_dict[")) or (e.kind == "call" and e.d["meth"] == "find_next_event_date"), inline=lambda ev: False, loop_iters=iters)
+        w = Walker(P, v, keep=lambda e: (e.kind == "assign" and e.d["target"].startswith("self.event_dates_dict[")) or (e.kind == "call" and e.d["meth"] == "find_next_event_date"), inline=rules.new_helper, loop_iters=iters)
         for st in w.paths_of(cls, fn):
             if st.status == "raise":
                 continue
